@@ -152,7 +152,11 @@ func c09Expect(got []string, where string, want map[string]func(m map[string]int
 }
 
 func hasID(id float64) func(map[string]interface{}) bool {
-	return func(m map[string]interface{}) bool { v, ok := m["id"].(float64); _, isReq := m["method"]; return ok && v == id && !isReq }
+	return func(m map[string]interface{}) bool {
+		v, ok := m["id"].(float64)
+		_, isReq := m["method"]
+		return ok && v == id && !isReq
+	}
 }
 
 func isMethod(method string) func(map[string]interface{}) bool {
@@ -344,8 +348,12 @@ func c09GetStream(prefix []int, pl string) explore.Outcome {
 		vsched.SetBranching(true)
 		sid := rp.SID
 		var e1, e2, e3 error
-		vsched.Go("notify1", func() { e1 = r.Server.SendNotification(sid, "notifications/message", map[string]interface{}{"n": 1, "data": payload}) })
-		vsched.Go("notify2", func() { e2 = r.Server.SendNotification(sid, "notifications/message", map[string]interface{}{"n": 2, "data": payload}) })
+		vsched.Go("notify1", func() {
+			e1 = r.Server.SendNotification(sid, "notifications/message", map[string]interface{}{"n": 1, "data": payload})
+		})
+		vsched.Go("notify2", func() {
+			e2 = r.Server.SendNotification(sid, "notifications/message", map[string]interface{}{"n": 2, "data": payload})
+		})
 		vsched.Go("roots", func() { _, e3 = r.Server.ListRoots(hx.SessionCtx(r.Server, sid)) })
 		vsched.Go("answerer", func() {
 			id := hx.AwaitRequestID(rp.Stream, "roots/list")
@@ -405,9 +413,13 @@ func c09LSStream(prefix []int, pl string, tick bool) explore.Outcome {
 			vsched.Go("clock", func() { vsched.FireEarliestTimer() }) // 30 s pass at an arbitrary moment: keep-alive tick
 		}
 		if !tick {
-			vsched.Go("req1", func() { rp.P.Do(http.MethodPost, rp.Endpoint, "", []byte(`{"jsonrpc":"2.0","id":11,"method":"tools/call","params":{"name":"echo"}}`), nil) })
+			vsched.Go("req1", func() {
+				rp.P.Do(http.MethodPost, rp.Endpoint, "", []byte(`{"jsonrpc":"2.0","id":11,"method":"tools/call","params":{"name":"echo"}}`), nil)
+			})
 		}
-		vsched.Go("req2", func() { rp.P.Do(http.MethodPost, rp.Endpoint, "", []byte(`{"jsonrpc":"2.0","id":12,"method":"tools/call","params":{"name":"roots"}}`), nil) })
+		vsched.Go("req2", func() {
+			rp.P.Do(http.MethodPost, rp.Endpoint, "", []byte(`{"jsonrpc":"2.0","id":12,"method":"tools/call","params":{"name":"roots"}}`), nil)
+		})
 		vsched.Go("answerer", func() {
 			id := hx.AwaitRequestID(rp.Stream, "roots/list")
 			if id != "" {
